@@ -2,6 +2,8 @@
 
 package db
 
+import "github.com/couchbase/sync_gateway/base"
+
 // C20 — sequence tokens round-trip and order consistently.
 
 func vhSeqID() SequenceID {
@@ -66,4 +68,107 @@ func VHarness_C20_Safe() {
 		vAssert(r == s.Seq, "safe==seq")
 	}
 	vAssert(s.IsNonZero() == (s.Seq != 0), "isnonzero")
+}
+
+// vhCanonical is the token that String() documents it writes for s (omitted fields zero).
+func vhCanonical(s SequenceID) SequenceID {
+	if s.TriggeredBy > 0 && s.Seq < s.TriggeredBy {
+		if s.LowSeq > 0 && s.LowSeq < s.TriggeredBy {
+			return s
+		}
+		return SequenceID{TriggeredBy: s.TriggeredBy, Seq: s.Seq}
+	}
+	if s.LowSeq > 0 && s.LowSeq < s.Seq {
+		return SequenceID{LowSeq: s.LowSeq, Seq: s.Seq}
+	}
+	return SequenceID{Seq: s.Seq}
+}
+
+// VHarness_C20_RoundTrip: parse(String(s)) succeeds and yields the canonical form, for every token.
+func VHarness_C20_RoundTrip() {
+	s := vhSeqID()
+	str := s.String()
+	p, err := ParsePlainSequenceID(str)
+	vAssert(err == nil, "roundtrip-parses")
+	want := vhCanonical(s)
+	vAssert(p == want, "roundtrip-canonical")
+	vAssert(p.SafeSequence() == s.SafeSequence(), "roundtrip-safe-sequence")
+	if s.TriggeredBy == 0 || s.Seq < s.TriggeredBy {
+		// server-emitted tokens: backfill entries precede their trigger
+		vAssert(p.Seq == s.Seq && p.TriggeredBy == s.TriggeredBy, "roundtrip-seq-and-trigger")
+	}
+	vAssert(!p.Before(want) && !want.Before(p), "roundtrip-same-position")
+}
+
+// VHarness_C20_RoundTripJSON: the same through MarshalJSON / the plain-string branch of the JSON parser.
+func VHarness_C20_RoundTripJSON() {
+	s := vhSeqID()
+	js, err := s.MarshalJSON()
+	vAssert(err == nil, "marshal-ok")
+	p, err := ParseJSONSequenceID(string(js))
+	vAssert(err == nil, "json-roundtrip-parses")
+	vAssert(p == vhCanonical(s), "json-roundtrip-canonical")
+}
+
+func vhIsDigit(b byte) bool { return b >= '0' && b <= '9' }
+
+// vhRefParse is an independent reference parser for D | D:D | D:D?:D (D = decimal digits).
+func vhRefParse(str string) (SequenceID, bool) {
+	if len(str) == 0 {
+		return SequenceID{}, true
+	}
+	var comps [3]uint64
+	var lens [3]int
+	n := 0
+	for i := 0; i < len(str); i++ {
+		c := str[i]
+		if c == ':' {
+			n++
+			if n > 2 {
+				return SequenceID{}, false
+			}
+			continue
+		}
+		if !vhIsDigit(c) {
+			return SequenceID{}, false
+		}
+		comps[n] = comps[n]*10 + uint64(c-'0')
+		lens[n]++
+	}
+	switch n {
+	case 0:
+		if lens[0] == 0 {
+			return SequenceID{}, false
+		}
+		return SequenceID{Seq: comps[0]}, true
+	case 1:
+		if lens[0] == 0 || lens[1] == 0 {
+			return SequenceID{}, false
+		}
+		return SequenceID{TriggeredBy: comps[0], Seq: comps[1]}, true
+	}
+	if lens[0] == 0 || lens[2] == 0 {
+		return SequenceID{}, false
+	}
+	return SequenceID{LowSeq: comps[0], TriggeredBy: comps[1], Seq: comps[2]}, true
+}
+
+// VHarness_C20_Parse: on every string of n bytes the parser agrees with the reference grammar,
+// never panics, and rejects malformed input with an error.
+func VHarness_C20_Parse() {
+	n := vNondetRange(0, vParam("maxlen", 5))
+	str := vNondetString(n)
+	got, err := ParsePlainSequenceID(str)
+	want, ok := vhRefParse(str)
+	if ok {
+		vAssert(err == nil, "parse-accepts-wellformed")
+		vAssert(got == want, "parse-value")
+	} else {
+		vAssert(err != nil, "parse-rejects-malformed")
+		vAssert(got == SequenceID{}, "parse-error-zero-value")
+		if err != nil {
+			status, _ := base.ErrorAsHTTPStatus(err)
+			vAssert(status >= 400 && status < 500, "malformed-token-is-client-error")
+		}
+	}
 }
